@@ -240,9 +240,10 @@ func CoqEval(workdir, name, imports, listType, fn string, cases []string, par in
 			mod := fmt.Sprintf("cases_%s_%d", name, i)
 			file := filepath.Join(workdir, mod+".v")
 			var b strings.Builder
-			b.WriteString(imports)
+			body := strings.Join(cases[sh.lo:sh.hi], ";\n  ")
+			b.WriteString(pruneDefs(imports, body))
 			b.WriteString("\nDefinition cases : " + listType + " := [\n  ")
-			b.WriteString(strings.Join(cases[sh.lo:sh.hi], ";\n  "))
+			b.WriteString(body)
 			b.WriteString("\n].\nEval vm_compute in render_lines (map " + fn + " cases).\n")
 			if err := os.WriteFile(file, []byte(b.String()), 0o644); err != nil {
 				sh.err = err
@@ -284,6 +285,54 @@ func CoqEval(workdir, name, imports, listType, fn string, cases []string, par in
 		out = append(out, sh.out...)
 	}
 	return out, nil
+}
+
+var defHeadRe = regexp.MustCompile(`(?m)^Definition\s+([A-Za-z_][A-Za-z0-9_']*)`)
+var identRe = regexp.MustCompile(`[A-Za-z_][A-Za-z0-9_']*`)
+
+// pruneDefs keeps, of the top-level `Definition <name> ...` blocks in preamble, only those that the
+// shard's cases mention (transitively); everything before the first Definition is kept as it is.
+// Parsing unused schema definitions used to dominate coqc's time per shard.
+func pruneDefs(preamble, body string) string {
+	locs := defHeadRe.FindAllStringSubmatchIndex(preamble, -1)
+	if len(locs) < 4 {
+		return preamble
+	}
+	type block struct {
+		name, text string
+		idents     map[string]bool
+	}
+	var blocks []*block
+	for i, l := range locs {
+		end := len(preamble)
+		if i+1 < len(locs) {
+			end = locs[i+1][0]
+		}
+		blocks = append(blocks, &block{name: preamble[l[2]:l[3]], text: preamble[l[0]:end]})
+	}
+	byName := map[string]*block{}
+	for _, b := range blocks {
+		byName[b.name] = b
+	}
+	need := map[string]bool{}
+	var visit func(text string)
+	visit = func(text string) {
+		for _, id := range identRe.FindAllString(text, -1) {
+			if b := byName[id]; b != nil && !need[id] {
+				need[id] = true
+				visit(b.text)
+			}
+		}
+	}
+	visit(body)
+	var out strings.Builder
+	out.WriteString(preamble[:locs[0][0]])
+	for _, b := range blocks {
+		if need[b.name] {
+			out.WriteString(b.text)
+		}
+	}
+	return out.String()
 }
 
 func tail(s string, n int) string {
